@@ -120,3 +120,38 @@ func ResultCell(fn *ssa.Function, idx int) *ssa.Alloc {
 	}
 	return nil
 }
+
+var cellDefsCache = map[*ssa.Alloc]*CellDefs{}
+
+// VCellAll: v satisfies pred, or is a load of a local cell every reaching definition of
+// which (by CellDefs; the zero value excluded) satisfies pred.
+func VCellAll(pred func(ssa.Value) bool) func(ssa.Value) bool {
+	return func(v ssa.Value) bool {
+		if pred(v) {
+			return true
+		}
+		ld, ok := v.(*ssa.UnOp)
+		if !ok || ld.Op != token.MUL {
+			return false
+		}
+		al, ok := ld.X.(*ssa.Alloc)
+		if !ok {
+			return false
+		}
+		cd := cellDefsCache[al]
+		if cd == nil {
+			cd = NewCellDefs(al.Parent(), al)
+			cellDefsCache[al] = cd
+		}
+		stores, zero := cd.At(ld)
+		if zero || len(stores) == 0 {
+			return false
+		}
+		for _, st := range stores {
+			if !pred(st.Val) {
+				return false
+			}
+		}
+		return true
+	}
+}
